@@ -9,6 +9,35 @@ TOPLEVEL_B = "extension-definition--5b3b0b3c-0a4e-4f0f-9c57-0d7f7a1b2c04"
 TOPLEVEL_UNREGISTERED = "extension-definition--5b3b0b3c-0a4e-4f0f-9c57-0d7f7a1b2cff"
 
 
+_refused_done = []
+
+
+def refused_registrations():
+    """History every worker of the input-judging checks starts with: registrations which the library (rightly) refuses -- names
+    that are taken, in the same or in the other 2.1 category, for built-in types, markings and extensions of both versions.  A
+    refusal leaves nothing behind; the checks then judge ordinary content of those very types.  Returns how many were attempted."""
+    if _refused_done:
+        return _refused_done[0]
+    import warnings
+    import stix2
+    from stix2 import properties as P
+    n = 0
+    for mod, ver in ((stix2.v21, "2.1"), (stix2.v20, "2.0")):
+        for dec, names, extra in ((mod.CustomObject, ["file", "identity", "ipv4-addr", "indicator", "relationship", "bundle", "marking-definition", "domain-name", "network-traffic"], ()),
+                                  (mod.CustomObservable, ["identity", "file", "indicator", "observed-data", "url", "report", "sighting"], ()),
+                                  (mod.CustomMarking, ["tlp", "statement"], ()), (mod.CustomExtension, ["ntfs-ext", "archive-ext", "tcp-ext", "socket-ext"], ())):
+            for name in names:
+                n += 1
+                try:
+                    with warnings.catch_warnings():
+                        warnings.simplefilter("ignore")
+                        dec(name, [("prop_one", P.StringProperty())])(type("Refused", (object,), {}))
+                except Exception:
+                    pass
+    _refused_done.append(n)
+    return n
+
+
 def ensure_registered():
     if _done:
         return _done
